@@ -254,6 +254,41 @@ Theorem nesting_lowering_is_preserves_matching : forall D parents cx, parents_ok
 Proof. exact lower_is_matching. Qed.
 Print Assumptions nesting_lowering_is_preserves_matching.
 
+(* The cross-product branch (several parents, target without :is()).  lower_expand
+   models the index-vector loop literally, including the pseudo-class nodes shared
+   between the rounds (tied by nestx_cases).  Of this faithful model the matching
+   statement is FALSE (known finding C12-N; replayed from the fixed corpus as
+   `a, b { :not(&).c1 { color: red } }` / `:is(&, i)` for firefox70): an "&" inside
+   a pseudo-class argument is replaced by the first parent in every copy, so
+   `div, a { :not(&).c1 {} }` becomes `:not(div).c1, :not(div).c1`, which matches an
+   element a.c1 that the nested rule excludes (the replayed witness); likewise
+   `a, b { :is(&, span) {} }` becomes `:is(a, span), :is(a, span)` and an element b,
+   matched by the nested rule, is matched by no lowered selector
+   (NestingProofs.expand_amp_in_pseudo_arg_witness). *)
+Theorem nesting_lowering_expand_preserves_matching_refuted :
+  exists (d : list node) parents cx x, parents_ok parents = true /\
+    existsb (fun s => matches (tree_dom d) [] s x) (lower_expand parents (LCons cx LNil))
+    <> matches (tree_dom d) (parent_set (tree_dom d) parents) (inject_amp cx) x.
+Proof.
+  exists wN2_doc, wN2_parents, wN2_child, 0%nat. split; [reflexivity|].
+  destruct expand_not_amp_witness as [_ [H1 H2]]. cbv zeta in H1, H2. rewrite H1, H2. discriminate.
+Qed.
+Print Assumptions nesting_lowering_expand_preserves_matching_refuted.
+
+(* ... and the specificity statement is false too (known finding C12-L, by design
+   upstream; replayed as `div, #i9 { > a {...} }` for chrome60): natively "&" has
+   the specificity of :is(parent list), i.e. of its most specific member; in the
+   cross product every copy has the specificity of the parent it was built from:
+   `div, .c1 { > a {} }` -> `div > a` (0,0,2) and `.c1 > a` (0,1,1), natively (0,1,1). *)
+Theorem nesting_lowering_expand_preserves_specificity_refuted :
+  exists parents cx s, parents_ok parents = true /\ In s (lower_expand parents (LCons cx LNil)) /\
+    spec_x s <> native_spec parents cx.
+Proof.
+  exists wL_parents, wL_child, (XCons (Cp 0 false (Some 3) SNil) (XCons (Cp 1 false (Some 1) SNil) XNil)).
+  split; [reflexivity|]. split; [left; reflexivity|]. vm_compute. discriminate.
+Qed.
+Print Assumptions nesting_lowering_expand_preserves_specificity_refuted.
+
 (* DUPLICATE DECLARATIONS AT A DISTANCE.  The back-to-front duplicate removal over
    a declaration list keeps exactly the LAST occurrence of every declaration,
    where identity includes the property, the value and !important: a declaration
